@@ -146,6 +146,7 @@ def check(case, mon, ctx):
             labels = torch.cat([torch.full((b['n'], 1), eng.sentence_boundary_ind), l.argmax(-1)[:, :-1]], 1)
             full = eng.net(torch.from_numpy(x).float() / 255.0, labels).permute(1, 0, 2)
         mon.count('batches')
+        mon.observe('transcriptions', [t_.tolist() for t_ in o])
         if prev_shape is not None and prev_shape != (b['n'], b['w']):
             mon.count('batches_after_different_batch')
             if b['n'] >= 2:
